@@ -344,7 +344,7 @@ Proof.
     + unfold getN. same_oi_tac.
     + rewrite length_setn. lia.
   - (* FTimerReg *)
-    inversion H; subst; clear H. simpl.
+    destruct (n_hrel (getN s res)); [discriminate|]. inversion H; subst; clear H. simpl.
     eapply edge_on_frames; [|eapply edge_on_same; [| | exact Inv]].
     + keep_frames.
     + unfold g_handle_rel. destruct (n_rel (getn (s_nodes s) res)); simpl; same_oi_tac.
